@@ -291,6 +291,36 @@ def _delegates(f, name):
     return False, f'returns `{src(rv, 40)}`, not the wrapped call\'s result'
 
 
+def r2c_fresh_body_iterator(ctx, rule='C12.R2'):
+    """a streamed request body is an iterator over the source stream: it has to be created inside the retried function, so
+    that every attempt reads the (rewound) stream again - an iterator created by the caller is exhausted after the first attempt"""
+    corpus = ctx.corpus
+    n = 0
+    for ci in backend_classes(corpus):
+        if ci.name == 'S3':
+            continue
+        for f in list(own_methods(corpus, ci).values()):
+            for g in [f] + list(f.all_nested()):
+                for c in calls_in(g.node):
+                    nm = (dotted(c.func) or '').rsplit('.', 1)[-1]
+                    if nm not in ('aiter_chunks', 'iter_chunks'):
+                        continue
+                    n += 1
+                    chain = [g]
+                    while chain[-1].parent is not None:
+                        chain.append(chain[-1].parent)
+                    retried = any(any(d['kind'] in ('backoff',) for d in decorators_of(corpus, x)) for x in chain)
+                    ctx.check(
+                        retried,
+                        rule,
+                        f'{func_label(g)}|body-iterator-created-per-attempt',
+                        loc(g, c),
+                        f'{g.qual}: the chunk iterator over the source stream is created inside the retried function (a fresh one per attempt)',
+                        f'{g.qual}: `{src(c, 60)}` is created outside the retried function and handed to it: after a failed attempt the retry sends the exhausted iterator - an empty body under the full content-length / payload hash',
+                    )
+    ctx.count('stream_body_iterators', n)
+
+
 def r3_wrappers(ctx):
     corpus = ctx.corpus
     up, down = _called_on_streams(corpus)
@@ -400,6 +430,36 @@ def r4_reauth(ctx):
             )
 
 
+def r4b_reauth_stateless(ctx, rule='C12.R4'):
+    """requires_auth decides per call: its wrappers keep nothing on the backend object except the auth lock itself, and
+    never give up on their own (a counter that survives calls turns the N-th isolated token expiry into an error)."""
+    corpus = ctx.corpus
+    ra = corpus.module('utils').functions.get('requires_auth')
+    if ra is None:
+        raise AnalysisError(f'{rule}: utils.requires_auth missing')
+    wrappers = [n for n in ast.walk(ra.node) if isinstance(n, (ast.FunctionDef, ast.AsyncFunctionDef)) and n is not ra.node]
+    ctx.floor(rule, 'requires_auth wrappers', len(wrappers), 2)
+    for w in wrappers:
+        selfname = (w.args.posonlyargs + w.args.args)[0].arg if (w.args.posonlyargs + w.args.args) else 'self'
+        for n in ast.walk(w):
+            tgts = n.targets if isinstance(n, ast.Assign) else [n.target] if isinstance(n, (ast.AugAssign, ast.AnnAssign)) else []
+            for t in tgts:
+                if isinstance(t, ast.Attribute) and isinstance(t.value, ast.Name) and t.value.id == selfname:
+                    v = getattr(n, 'value', None)
+                    is_lock = isinstance(v, ast.Name) and any(isinstance(a, ast.Assign) and any(isinstance(x, ast.Name) and x.id == v.id for tt in a.targets for x in ast.walk(tt)) and any(isinstance(c, ast.Call) and (dotted(c.func) or '').endswith('Lock') for c in ast.walk(a.value)) or (isinstance(a, ast.Assign) and any(isinstance(x, ast.Name) and x.id == v.id for tt in a.targets for x in ast.walk(tt)) and isinstance(a.value, ast.Subscript)) for a in ast.walk(w))
+                    ctx.check(
+                        is_lock,
+                        rule,
+                        f'replicat/utils/__init__.py::requires_auth|wrapper-keeps-only-the-lock:{t.attr}',
+                        f'replicat/utils/__init__.py:{n.lineno}',
+                        f'requires_auth: `{selfname}.{t.attr}` holds the per-object auth lock',
+                        f'requires_auth stores `{selfname}.{t.attr} = {src(v, 40) if v is not None else "..."}` on the backend object: whether a later authorisation fault is masked now depends on the history of earlier calls '
+                        '(e.g. a re-auth counter that is never reset turns the N-th isolated token expiry of a session into an error)',
+                    )
+            if isinstance(n, ast.Raise) and n.exc is not None and any(isinstance(x, ast.Attribute) and x.attr == 'AuthRequired' for x in ast.walk(n.exc)):
+                ctx.fail(rule, f'replicat/utils/__init__.py::requires_auth|wrapper-never-gives-up', f'replicat/utils/__init__.py:{n.lineno}', 'requires_auth raises AuthRequired itself: an authorisation fault that a re-authentication would have masked reaches the caller')
+
+
 def r5_no_stale_credentials(ctx):
     """Server-issued state cached on a B2 instance by a re-authenticated method is
     reset by authenticate() (otherwise a stale token is re-sent after every re-auth)."""
@@ -431,5 +491,7 @@ def run(ctx):
     r5_no_stale_credentials(ctx)
     r1_bounded_retry(ctx)
     r2_rewind(ctx)
+    r2c_fresh_body_iterator(ctx)
     r3_wrappers(ctx)
     r4_reauth(ctx)
+    r4b_reauth_stateless(ctx)
